@@ -575,6 +575,12 @@ func checkC19(c *Ctx) {
 	checkResetTogether(c, "R9")
 	c.Rule("R10", "the HOTKEY report lists the tracked key names verbatim")
 	checkReportNamesVerbatim(c, "R10")
+	c.Rule("R14", "the published list of hot keys is read-only for its readers: the slice HotKeys() returns is the collector's own, shared by every HOTKEY command; nobody sorts it or writes its elements in place")
+	if hk := p.Func("proc/redis/hotkey", "(*Collector).HotKeys"); hk != nil {
+		checkSharedListImmutable(c, "R14", hk, "hotkey.HotKey")
+	} else {
+		c.Unresolved("R14", "(*Collector).HotKeys")
+	}
 	c.Rule("R11", "the report is built from bytes the handler owns: the bytes of a pooled buffer are only copied out of the function that releases it (shared with C13.R11)")
 	checkPooledBytesEscape(c, "R11")
 	c.Rule("R12", "the lookup of a key and the insertion it decides are covered by one acquisition of the counter's mutex")
